@@ -628,6 +628,15 @@ func (w *Worker) doTaskAttempt(
 				Msg("stop signal received just before starting to process next batch, gracefully stopping without flushing the batch")
 			return nil
 		}
+
+		// A position is a record's identity for the whole pass, not only at a
+		// fan-out (see newMultiAckNacker): Batch keys the originals of split
+		// records by position, so with two records sharing one position the
+		// wrong record is sent to the DLQ and the failed one is acked away.
+		// Refuse the batch before any task acts on it.
+		if err := validateDistinctPositions(b.positions); err != nil {
+			return err
+		}
 	}
 
 	if !b.tainted {
@@ -958,6 +967,29 @@ func validateAckPositions(positions []opencdc.Position) error {
 			"and a later processor returned only part of the split run. The records are not acked and will " +
 			"be redelivered, but the pipeline is stopped to protect the source position"
 		return ce
+	}
+	return nil
+}
+
+// validateDistinctPositions rejects a batch, as read from the source, in which
+// two records carry the same position. Empty positions are not its concern,
+// they are refused on their own (see CodeEmptySourcePosition).
+func validateDistinctPositions(positions []opencdc.Position) error {
+	seen := make(map[string]int, len(positions))
+	for i, p := range positions {
+		if len(p) == 0 {
+			continue
+		}
+		if prev, dup := seen[string(p)]; dup {
+			ce := conduiterr.New(CodeDuplicateSourcePosition, fmt.Sprintf(
+				"records %d and %d in the same batch carry the identical position %q; "+
+					"a position must uniquely identify a record", prev, i, p,
+			))
+			ce.Suggestion = "this is a source-connector bug: every record in a batch must carry a distinct, " +
+				"non-empty position. No records of this batch were processed or acked, they will be redelivered"
+			return ce
+		}
+		seen[string(p)] = i
 	}
 	return nil
 }
